@@ -304,6 +304,8 @@ def _mask(ctx) -> None:
         if not (t[0] == "call" and t[1] == ("attr", SELF, "copy") and t[2]):
             continue
         data = t[2][0]
+        if data == ("tuple", ()):
+            continue                     # the empty selection
         se = same_elements_of(it, data)
         cp = comp_parts(it, data)
         if se and se[0] == SELF and se[1] == "mask":
